@@ -34,7 +34,8 @@ BOUND = {
 }
 TIME_CAP = {"quick": 300, "thorough": 3000}
 
-STAT_ALPHA = {"f8": [None, "1.0", "2.0", "-1.5", "0.25"], "i8": [0, 1, 2, -3, 4611686018427387904], "b1": [False, True], "u1": [0, 1, 200, 255]}
+STAT_ALPHA = {"f8": [None, "1.0", "2.0", "-1.5", "0.25"], "i8": [0, 1, 2, -3, 4611686018427387904], "b1": [False, True], "u1": [0, 1, 200, 255],
+              "i4": [0, 1, -2147483647, 2147483647]}  # neighbouring order statistics further apart than the type is wide
 GEN_ALPHA = {
     "f8": [None, "1.0", "2.0", "-inf"],
     "i8": [0, 1, 2, -3],
@@ -59,7 +60,7 @@ def helper_calls(family, kind):
         for h in ("std", "var"):
             for ddof in (0, 1):
                 calls += [(h, {"ddof": ddof, "drop_na": d}) for d in DROP]
-        if kind in ("b1", "i8", "f8", "u1"):
+        if kind in ("b1", "i8", "f8", "u1", "i4"):
             calls += [("all", {}), ("any", {})]
         # order-sensitive helpers evaluated AFTER the numeric reductions in the same aggregate call:
         # a reduction that reorders the shared column in place (partial sort) is seen here
